@@ -271,7 +271,11 @@ pub fn take_panic() -> Option<PanicInfo> {
 /// Signature of a panic that does not move under unrelated edits:
 /// file (relative to the repository) + enclosing fn (recovered from the source) + message class.
 pub fn panic_sig(p: &PanicInfo) -> String {
-    let file = p.file.strip_prefix("/repo/").unwrap_or(&p.file).to_string();
+    // path relative to the repository whatever the include path looks like
+    let file = match p.file.rfind("/repo_src/") {
+        Some(i) => format!("src/{}", &p.file[i + 10..]),
+        None => p.file.strip_prefix("/repo/").unwrap_or(&p.file).to_string(),
+    };
     let func = enclosing_fn(&p.file, p.line).unwrap_or_else(|| "?".to_string());
     format!("panic@{}::{}:{}", file, func, msg_class(&p.msg))
 }
